@@ -50,14 +50,18 @@ CONTEXTS = {
 SUFFIXES = ["", ";", ")", ");", "\n"]
 
 
+_build_lock = __import__("threading").Lock()
+
+
 def build():
-    if _built[0]:
-        return True
-    p = subprocess.run(["bash", os.path.join(REPLAY_DIR, "build.sh")], capture_output=True, text=True)
-    _built[0] = p.returncode == 0
-    if not _built[0]:
-        print("replay build failed:\n" + (p.stdout + p.stderr)[-1500:])
-    return _built[0]
+    with _build_lock:
+        if _built[0]:
+            return True
+        p = subprocess.run(["bash", os.path.join(REPLAY_DIR, "build.sh")], capture_output=True, text=True)
+        _built[0] = p.returncode == 0
+        if not _built[0]:
+            print("replay build failed:\n" + (p.stdout + p.stderr)[-1500:])
+        return _built[0]
 
 
 def _repo_test_literals():
